@@ -13,6 +13,7 @@ PROP = {
              "transaction of the branching flow gets exactly the actions its own headers determine; lookups never fail. Non-trivial: >=2 transactions were in flight at the same time (measured). "
              "distinct = canonical JSON of the workload parameters"),
     "assumptions": [
+        "unit TestFlowCountersUnderLoad: per-flow state that every transaction updates (the invocation counters behind the flow_invocations metric) must end where every one-at-a-time order leaves it - one invocation per transaction that ran the flow - after 2-16 goroutines sent 50-400 transactions each while the counters are being read; a read-modify-write that is not atomic loses updates without being a data race",
         "unit TestStoredRequestsOfOverlappingTransactions: the request kept for a transaction's response side (full-request messages; APIStream.StoreRequest / DiscardRequest as routing.processRequest / processResponse call them) is that transaction's alone: 2-6 transactions of a flow whose response path exports every transaction (HARCollector reads the stored request) run their two sides in a generated interleaving with several requests stored before any is answered, bodies and URLs of equal and different lengths; every response side exports one record whose request - URL and body - is the transaction's own (sequential, deterministic; the race detector is on all the same)",
         "the gateway's log level (LOG_LEVEL: off in three cases of eight, else error / info / debug / trace; what is logged is thrown away, what a log statement does to build its arguments happens) is a generated part of every case of TestWorkloads (only the atomic global level moves there; the logger variable is pointed to nowhere once, before anything runs, so that the race detector sees no harness write): no answer may depend on it; a failing case reports its level",
         "unit TestVacuumKeepsEveryRegistration: the background removal of per-transaction state (MapVacuum, used for policy version pins and concurrency slots) on a virtual clock, with registrations forced inside a running pass; a key must stay until its time-to-live has passed and must be gone after time-to-live plus two ticks",
@@ -30,6 +31,7 @@ PROP = {
         dict({"pkg": "c18", "test": "TestVacuumKeepsEveryRegistration", "quick": 1500, "thorough": 20000, "shards": 8}, **_RACE),
         dict({"pkg": "c18", "test": "TestManagerReloadWorkload", "quick": 75, "thorough": 600, "shards": 1}, **_RACE),
         dict({"pkg": "c18", "test": "TestStoredRequestsOfOverlappingTransactions", "quick": 600, "thorough": 10000, "shards": 8}, **_RACE),
+        dict({"pkg": "c18", "test": "TestFlowCountersUnderLoad", "quick": 12, "thorough": 200, "shards": 8, "quick_shards": 2}, **_RACE),
     ],
     "technique": "generated concurrent workloads and forced interleavings under the Go race detector (happens-before oracle, reports reduced to normalised signatures) plus serialisability checks of the verdicts",
     "level_text": ("generated concurrent workloads are executed against the real engine in a race-detector build; any unsynchronised access to engine state that the schedule exhibits is reported "
